@@ -1327,12 +1327,21 @@ def r17_7(rep):
         lits_ = [n for n in b.nodes if n["k"] == "Lit" and n.get("v") in ("-include", "--include", "-imacros")]
         if not lits_:
             continue
+        # recognising means comparing an argument with the literal (or matching on it), not writing the literal into the command line
+        def compared(l_):
+            par = b.parent[l_["_i"]]
+            while par is not None and par["k"] in ("AddrOf", "Unary", "Cast"):
+                par = b.parent[par["_i"]]
+            return par is not None and ((par["k"] == "Binary" and par["op"] in ("==", "!=")) or
+                                        (par["k"] == "MCall" and par.get("name") in ("eq", "ne", "starts_with", "strip_prefix", "contains")))
+        recognises = any(compared(l_) for l_ in lits_) or any(m_["k"] == "Match" and any("-include" in str(v) for a_ in m_["arms"] for v in pat_variants(a_["pat"]))
+                                                               for m_ in b.nodes)
         reads_args = any(n["k"] == "Field" and str(n.get("adt", "")).endswith("BindgenOptions") and n["f"] in ("clang_args", "fallback_clang_args")
                          for n in b.nodes) or any("clang_args" in str(prm.get("name", "")) for prm in b.params)
         feeds = any(c["k"] == "MCall" and (c.get("name") in ("add_dep", "header_file", "include_file") or
                                           (c.get("name") in ("insert", "extend", "push") and "deps" in b.canon(c["recv"], 4)))
                     for c in b.nodes)
-        sites.append((b, lits_[0], reads_args, feeds))
+        sites.append((b, lits_[0], reads_args and recognises, feeds))
     rep.need(sites, "code that recognises `-include` in the clang arguments")
     ok = any(reads and feeds for _, _, reads, feeds in sites)
     rep.check(ok, "forced-include-is-a-dependency", "`-include` arguments found in clang_args are added to the dependency set" if ok else
